@@ -182,6 +182,9 @@ def param_spec(draw, name, depth=2, safe_const=True, ro_variants=False):
     else:
         p['write'] = None
     p['read'] = draw(st.sampled_from([None, 'cached']))
+    if ro_variants and flavour in ('rw', 'hidden', 'custom', 'ro') and draw(st.integers(0, 5)) == 0:
+        # the configuration hides, shows or renames the parameter
+        p['cfg_export'] = draw(st.sampled_from([True, f'_cfg{name}'] if flavour == 'hidden' else [False, False, f'_cfg{name}']))
     if T['k'] in NUMERIC and flavour in ('rw', 'custom') and draw(st.booleans()):
         p['limits'] = draw(st.sampled_from(['min', 'max', 'minmax', 'limits']))
     if T['k'] in NUMERIC and flavour in ('rw', 'custom') and draw(st.integers(0, 3)) == 0:
@@ -222,6 +225,8 @@ def cfg_overrides(spec):
     for p in spec['params']:
         if p.get('ro_how') == 'cfg':
             res.setdefault(p['name'], {})['readonly'] = True
+        if 'cfg_export' in p:
+            res.setdefault(p['name'], {})['export'] = p['cfg_export']
         C = p.get('cfgT')
         if C:
             ent = res.setdefault(p['name'], {})
@@ -231,6 +236,17 @@ def cfg_overrides(spec):
                 ent.update(min=C['lo'] * C['scale'], max=C['hi'] * C['scale'])
             elif C['k'] == 'string':
                 ent.update(maxchars=C['max'])
+    return res
+
+
+def effective_spec(spec):
+    """the class spec as the configured instance shows it: limits and export names as overridden by cfg_overrides(spec)"""
+    res = dict(spec, params=[])
+    for p in spec['params']:
+        q = dict(p, T=effective_T(p))
+        if 'cfg_export' in p:
+            q['export'] = p['cfg_export']
+        res['params'].append(q)
     return res
 
 
